@@ -523,6 +523,29 @@ def run_sem_case(case):
                     o = outcome(lambda: m1.parse(text, start=case.get('start', 's'), **kw2))
                     clear_caches()
                     o['ref'] = outcome(lambda: tatsu.compile(case['ebnf'], semantics=Two('first')).parse(text, start=case.get('start', 's'), **kw2))
+                elif shape == 'assigned-late' and case.get('backend') != 'generated':
+                    # the semantics object is supplied by assignment to the model AFTER the model has parsed once without any; then it is
+                    # replaced by another object: each parse must run the actions of the object the model holds at that moment
+                    class Late:
+                        def __init__(self, tag):
+                            self.tag = tag
+
+                        def _default(self, ast, *a, **k):
+                            return {'by': self.tag, 'v': ast}
+                    kw2 = {k: v for k, v in kw.items() if k != 'semantics'}
+                    clear_caches()
+                    m1 = tatsu.compile(case['ebnf'])
+                    outcome(lambda: m1.parse(text, start=case.get('start', 's'), **kw2))
+                    m1.semantics = Late('first')
+                    o1 = outcome(lambda: m1.parse(text, start=case.get('start', 's'), **kw2))
+                    m1.semantics = Late('second')
+                    o2 = outcome(lambda: m1.parse(text, start=case.get('start', 's'), **kw2))
+                    clear_caches()
+                    r1 = outcome(lambda: tatsu.compile(case['ebnf'], semantics=Late('first')).parse(text, start=case.get('start', 's'), **kw2))
+                    clear_caches()
+                    r2 = outcome(lambda: tatsu.compile(case['ebnf'], semantics=Late('second')).parse(text, start=case.get('start', 's'), **kw2))
+                    clear_caches()
+                    o = {'k': 'pair', 'v': [o1, o2], 'ref': {'k': 'pair', 'v': [r1, r2]}}
                 elif route == 'api':
                     o = outcome(lambda: tatsu.parse(case['ebnf'], text, start=case.get('start', 's'), **kw))
                 else:
